@@ -106,7 +106,7 @@ func tierFor(prop, tier string) tierCfg {
 	}
 	c := tierCfg{Workers: w, RunsPerW: 100, ShrinkSec: 40, MaxReplays: 3}
 	if tier == "thorough" {
-		c.RunsPerW, c.ShrinkSec, c.MaxReplays = 1500, 120, 4
+		c.RunsPerW, c.ShrinkSec, c.MaxReplays = 1000, 120, 4
 	}
 	if f := tierScale[prop]; f > 0 {
 		c.RunsPerW = int(float64(c.RunsPerW) * f)
